@@ -1101,6 +1101,8 @@ func faultPart() runner.Part {
 			res := &runner.Result{Outcomes: map[string]int{}}
 			seen := map[string]bool{}
 			idx := -1
+			lens := map[string]int{}
+			res.Extra = map[string]any{"output_length_per_combination(= quotas swept)": lens}
 			for ti, es := range tars {
 				for _, mode := range []string{"append", "lossless", "append2"} {
 					// level 0 (stored blocks) makes the output exceed the Writer's 4 KiB buffer, so that
@@ -1124,6 +1126,7 @@ func faultPart() runner.Part {
 							if ctx.Shard == 0 {
 								res.States++
 							}
+							lens[fmt.Sprintf("%s %s/%s/l%d/min%d", enumx.DescribeEnts(es), mode, k.comp, k.level, min)] = full
 							for q := 0; q < full; q++ {
 								if (idx+q)%ctx.Of != ctx.Shard {
 									continue // every shard takes every Of-th quota of every combination
